@@ -9,7 +9,7 @@ all vectors of ℝ³:
   * `projected_le`: `(t·i)² ≤ t·t` for a unit `i` — the projection never over-measures;
   * `projected_eq_iff`: equality exactly when the tangent is parallel to the chord — so the code before fix 8f7dd87 under-measured
     EVERY Gauss point of a genuinely curved element (`projected_lt_of_not_parallel`), which is why a disc meshed with TRI6 had the
-    boundary length of its chords;
+    boundary length of its chords (and, for surfaces, a warped 4-node quadrangle the area of its projection: fix 93b2b16);
   * `metric_line`: the measure used since the fix, `√det(T Tᵀ)` with `T` the 1 × 3 matrix of the tangent, is `|t|`;
   * surfaces: `gram_det_eq_cross` — `det(T Tᵀ) = |t₁ × t₂|²` for the 2 × 3 matrix of two tangents, the squared area element;
     `projected_area_le`: the determinant of the tangents projected on ANY orthonormal pair `(i, j)` of the element's plane,
